@@ -239,13 +239,13 @@ def _kind_family():
 
 
 CHECKS = {
-    "C16": Check("C16", [ExprFamily("C16", "o", "oracle_C16", {"D1": "o_noD1", "D2": "o_noD2", "D3": "o_noD3", "OVC": "o_noOVC"}, gen_overlapping, 3000, 40000)], ASSUME),
+    "C16": Check("C16", [ExprFamily("C16", "o", "oracle_C16", {"D1": "o_noD1", "D2": "o_noD2", "D3": "o_noD3", "OVC": "o_noOVC"}, gen_overlapping, 6000, 40000)], ASSUME),
     "C17": Check("C17", [
-        ExprFamily("C17", "s", "oracle_events_strong", {"D1": "c_noD1", "D2": "c_noD2", "D3": "c_noD3"}, gen_transforms, 2000, 30000, name="buffer-slices"),
-        ExprFamily("C17", "f", "oracle_mw", {}, gen_mw, 2000, 30000, name="merge_within-fetches"),
+        ExprFamily("C17", "s", "oracle_events_strong", {"D1": "c_noD1", "D2": "c_noD2", "D3": "c_noD3"}, gen_transforms, 4000, 30000, name="buffer-slices"),
+        ExprFamily("C17", "f", "oracle_mw", {}, gen_mw, 4000, 30000, name="merge_within-fetches"),
         BufChainFamily("C17")], ASSUME),
     "C18": Check("C18", [
-        ExprFamily("C18", "s", "oracle_events_strong", {"D1": "c_noD1", "D2": "c_noD2"}, gen_filters, 2500, 40000, name="filtered_slices"),
-        ExprFamily("C18", "s", "oracle_events_strong", {"D1": "c_noD1", "D2": "c_noD2"}, gen_filters_derived, 800, 10000, name="filtered_derived"),
+        ExprFamily("C18", "s", "oracle_events_strong", {"D1": "c_noD1", "D2": "c_noD2"}, gen_filters, 5000, 40000, name="filtered_slices"),
+        ExprFamily("C18", "s", "oracle_events_strong", {"D1": "c_noD1", "D2": "c_noD2"}, gen_filters_derived, 2000, 10000, name="filtered_derived"),
         ApplyFamily("C18"), _kind_family()], ASSUME),
 }
